@@ -8,7 +8,7 @@ checks, na = [], []
 for p in props:
     pid = p['id']
     path = os.path.join(V, 'vlib', 'props', pid.lower() + '.py')
-    if not os.path.exists(path):
+    if not os.path.exists(path) or not os.path.exists(os.path.join(V, 'evidence', pid + '.json')):
         na.append({'property_id': pid, 'reason': 'monitor not built yet (work in progress; the technique applies, see DESIGN.md section 4)'})
         continue
     mod = importlib.import_module('vlib.props.' + pid.lower())
